@@ -433,6 +433,10 @@ func c08SeqPrepare(seed int64, flavour string) *c08SeqJob {
 	c := c08SeqCase{Seed: seed, Flavour: flavour, Soft: soft}
 	if flavour != "C09" && (rng.Intn(3) == 0 || flavour == "C02" && rng.Intn(3) > 0) {
 		c.ModelKey = 1 + rng.Intn(3)
+	} else if flavour == "C09" && rng.Intn(4) == 0 {
+		// round 3: the key given through Model(..) only (`h := db.Model(&keyed)`; later `h.Delete(&T{})` / `h.Update(..)`):
+		// such a statement supplies a condition, no write on it may be rejected
+		c.ModelKey = 1 + rng.Intn(3)
 	}
 	c.TxMode = []string{"default", "default", "skip", "prepare", "begin"}[rng.Intn(5)]
 	ops := c08GenSeq(rng, w, flavour, soft, c.ModelKey)
